@@ -62,6 +62,11 @@ func (w *World) Publish(c int, topic string, qos packet.QOS, retain bool, empty 
 		p.ID = w.nextPid(c)
 	}
 	if qos == 2 {
+		// never hold more QoS 2 handshakes open than the broker has publish tokens (10): the
+		// processor would block on the token (that state is outside the model)
+		for len(w.peers[c].open2) >= 7 {
+			w.Release(c)
+		}
 		w.peers[c].open2 = append(w.peers[c].open2, p.ID)
 	}
 	w.Send(c, p)
@@ -114,7 +119,7 @@ func (w *World) Reconnect(old int, clean bool) int {
 	c := w.Conn()
 	po := w.peers[old]
 	pn := w.peers[c]
-	if !clean {
+	if !clean && !po.clean {
 		// the peer keeps its view of unfinished handshakes (it will see duplicates)
 		pn.unacked = po.unacked
 		pn.open2 = append(append([]packet.ID{}, po.released2...), po.open2...)
@@ -346,7 +351,10 @@ func c07Script(r *gen.Rng, o *out.W) {
 	}
 	for pid, s2 := range slots {
 		if s2.open && s2.qos == 2 {
-			w.Send(c, &packet.Publish{ID: pid, Dup: true, Message: packet.Message{Topic: "t/" + s2.tag, QOS: 2, Payload: []byte(s2.tag)}})
+			if !s2.rel {
+				// a PUBLISH is retransmitted only as long as no PUBREL was sent for it
+				w.Send(c, &packet.Publish{ID: pid, Dup: true, Message: packet.Message{Topic: "t/" + s2.tag, QOS: 2, Payload: []byte(s2.tag)}})
+			}
 			w.Send(c, &packet.Pubrel{ID: pid})
 		}
 	}
@@ -379,6 +387,11 @@ func c08Offline(r *gen.Rng, o *out.W) {
 		}
 		for i := 0; i < n; i++ {
 			w.Publish(a, []string{"x/1", "y", "x/2/3", "z"}[r.Intn(4)], packet.QOS(r.Intn(3)), false, false)
+			if r.Intn(3) != 0 {
+				w.Release(a)
+			}
+		}
+		for w.Release(a) {
 		}
 		b = w.Reconnect(b, r.Intn(6) == 0)
 		if r.Intn(3) == 0 {
